@@ -68,7 +68,7 @@ func (t *BlockTree) PathToLeaf() *BlockPath {
 	}
 
 	p := &BlockPath{block: t.Block, next: nil}
-	for leaf := t; leaf != nil; leaf = leaf.Parent {
+	for leaf := t.Parent; leaf != nil; leaf = leaf.Parent {
 		p2 := &BlockPath{block: leaf.Block, next: p}
 		p = p2
 	}
